@@ -11,10 +11,10 @@ import concurrent.futures, json, os, re, subprocess, sys, tempfile, shutil, glob
 VERIF = os.path.dirname(os.path.dirname(os.path.abspath(__file__)))
 ALL = [f"C{i:02d}" for i in range(1, 21)]
 RELATED = {
-    "C01": ["C01", "C05", "C09", "C04"], "C02": ["C02", "C03"], "C03": ["C03", "C01", "C02", "C06"], "C04": ["C04", "C18"], "C05": ["C05", "C01", "C09", "C16"],
+    "C01": ["C01", "C05", "C09", "C04"], "C02": ["C02", "C03"], "C03": ["C03", "C01", "C02", "C06", "C10"], "C04": ["C04", "C18", "C19"], "C05": ["C05", "C01", "C09", "C16"],
     "C06": ["C06"], "C07": ["C07"], "C08": ["C08", "C07"], "C09": ["C09", "C04", "C20"], "C10": ["C10"],
     "C11": ["C11", "C18", "C17", "C10"], "C12": ["C12", "C18"], "C13": ["C13", "C15"], "C14": ["C14", "C18"], "C15": ["C15", "C13"],
-    "C16": ["C16", "C06"], "C17": ["C17"], "C18": ["C18", "C04", "C12"], "C19": ["C19"], "C20": ["C20", "C09"],
+    "C16": ["C16", "C06"], "C17": ["C17"], "C18": ["C18", "C04", "C12", "C01"], "C19": ["C19"], "C20": ["C20", "C09"],
 }
 
 
